@@ -49,6 +49,11 @@ func runC18(c *core.Ctx) *core.Outcome {
 	cfg.CacheSize = 0
 	cfg.OutputSize = 0
 	cfg.Language = []string{"", "nor", "eng", "swa"}[t.Int(4)]
+	// a pre-VM function whose result is empty, ordinary text or happens to read like a language code
+	cfg.First = t.Chance(1, 3)
+	if cfg.First {
+		cfg.FirstContent = []string{"", "-", "fra", "sw", "xx"}[t.Int(5)]
+	}
 	a := app.Generate(t, c18Profile(cfg.FlagCount))
 	if err := a.Validate(); err != nil {
 		panic("generator produced ill-formed app: " + err.Error())
@@ -118,7 +123,18 @@ func runC18(c *core.Ctx) *core.Outcome {
 			}
 		}
 		// 1. language seen by every external function call
-		calls := r.s.CallLog[nc:]
+		var calls []world.ExtCall
+		for _, cl := range r.s.CallLog[nc:] {
+			if cl.Sym == "_first" {
+				// not an instruction of the program; it runs before anything else of the request
+				if cl.Lang != langBefore {
+					return finishModel(o, c, r).Fail("wrong-language-on-call", i, map[string]string{"stack": stackName(dbStack), "call": "pre-vm"}, "request %d input %s: the pre-VM function was called with language %q on the context, the selected language is %q", i, short(string(in)), cl.Lang, langBefore)
+				}
+				o.Probes["pre_vm_call_checked"]++
+				continue
+			}
+			calls = append(calls, cl)
+		}
 		for k, cl := range ob.exp.Calls {
 			if k < len(calls) && calls[k].Lang != cl.Lang {
 				return finishModel(o, c, r).Fail("wrong-language-on-call", i, map[string]string{"stack": stackName(dbStack)}, "request %d input %s: external function %s#%d was called with language %q on the context, the selected language at that point is %q", i, short(string(in)), cl.Sym, cl.K, calls[k].Lang, cl.Lang)
